@@ -47,9 +47,9 @@ def typed_compare(g, l, with_model=None):
                 return 'node %s: %s is %r after loading, was %r' % (n.full_name, f, b, a)
         if type(m.tags) is not list or any(type(t) is not str for t in m.tags) or list(n.tags) != m.tags:
             return 'node %s: tags are %r after loading, were %r' % (n.full_name, m.tags, n.tags)
-        if sorted(c.id for c in n.children) != sorted(c.id for c in m.children):
+        if set(c.id for c in n.children) != set(c.id for c in m.children):
             return 'node %s: children differ after loading' % n.full_name
-        if sorted(c.id for c in n.parents) != sorted(c.id for c in m.parents):
+        if set(c.id for c in n.parents) != set(c.id for c in m.parents):
             return 'node %s: parents differ after loading' % n.full_name
         if sorted(a.id for a in n.compromised_by) != sorted(a.id for a in m.compromised_by):
             return 'node %s: compromised_by differs after loading' % n.full_name
@@ -150,6 +150,7 @@ def body_model(cube, **kw):
     from maltoolbox.attackgraph.analyzers.apriori import calculate_viability_and_necessity, prune_unviable_and_unnecessary_nodes
     fmt = pick(kw['fmt'], FMT)
     linkb, dval, att, ana, prune, withm = bool(kw['l']), pick(kw['d'], [None, 0.0, 1.0, 0.3]), bool(kw['at']), bool(kw['an']), bool(kw['pr']), bool(kw['wm'])
+    goal = bool(kw['goal']) if 'goal' in kw else False
     with notrace(), reclimit():
         lg, lcf = langs.build_lang(L_MINI())
         m, assets = mb.build_model(lcf, ['N', 'N'], names=['srv', 'db:1'])
@@ -168,6 +169,11 @@ def body_model(cube, **kw):
         if prune:
             prune_unviable_and_unnecessary_nodes(g)
         g.nodes[0].extras = {'note': 'x'}
+        if goal:
+            from maltoolbox.attackgraph import AttackGraphNode
+            x = AttackGraphNode(type='or', name='goal')
+            g.add_node(x)
+            g.nodes[0].children.append(x); x.parents.append(g.nodes[0])
         l = roundtrip(g, fmt, model=m if withm else None)
         if withm:
             return typed_compare(g, l, with_model=m)
@@ -184,7 +190,7 @@ def body_model(cube, **kw):
                 return 'node %s differs after loading without the model: %r vs %r' % (n.full_name,
                     (n.id, n.type, n.name, n.ttc, n.defense_status, n.existence_status, n.is_viable, n.is_necessary, list(n.tags)),
                     (x.id, x.type, x.name, x.ttc, x.defense_status, x.existence_status, x.is_viable, x.is_necessary, x.tags))
-            if sorted(c.id for c in n.children) != sorted(c.id for c in x.children):
+            if set(c.id for c in n.children) != set(c.id for c in x.children):
                 return 'node %s: children differ after loading without the model' % n.full_name
         if sorted((a.id, a.name, sorted(s.id for s in a.reached_attack_steps), sorted(s.id for s in a.entry_points)) for a in g.attackers) != \
                 sorted((a.id, a.name, sorted(s.id for s in a.reached_attack_steps), sorted(s.id for s in a.entry_points)) for a in l.attackers):
@@ -217,10 +223,10 @@ def queries(tier):
                 bound='%d hand-built nodes: node 0 with attribute picks (defense %s, existence %s, tags %s, extras, ttc, mitre; at most %d non-default '
                       'families at once), symbolic viability/necessity flags, edges %s plus symbolic ones, two attackers (same/different name, ids '
                       '{None,0,5} and 3), reached sets, entry points, optional pruning, formats %s' % (n, DSTAT, ESTAT, TAGS, cap, cube['edges'], FMT))]
-    ps = [I('fmt', 0, 2), B('l'), I('d', 0, 3), B('at'), B('an'), B('pr'), B('wm')]
+    ps = [I('fmt', 0, 2), B('l'), I('d', 0, 3), B('at'), B('an'), B('pr'), B('wm'), B('goal')]
     qs.append(Query(name='model', body=body_model, params=ps, split=['fmt'], timeout=500,
-                    witnesses=[({}, {'fmt': 0, 'l': True, 'd': 2, 'at': True, 'an': True, 'pr': True, 'wm': True}),
-                               ({}, {'fmt': 1, 'l': True, 'd': 3, 'at': True, 'an': False, 'pr': False, 'wm': False})],
+                    witnesses=[({}, {'fmt': 0, 'l': True, 'd': 2, 'at': True, 'an': True, 'pr': True, 'wm': True, 'goal': True}),
+                               ({}, {'fmt': 1, 'l': True, 'd': 3, 'at': True, 'an': False, 'pr': False, 'wm': False, 'goal': False})],
                     bound='graph generated from a 2-asset L_MINI model (asset names srv and db:1; link, defense value, model attacker symbolic), '
                           'optionally analysed and pruned, saved and loaded with or without the model, formats %s' % FMT))
     return qs
